@@ -9,6 +9,7 @@ MC = """---- MODULE Base58MC ----
 EXTENDS Base58
 RowsV == %s
 CasesV == %s
+OKRowsV == %s
 ====
 """
 CFG = """SPECIFICATION Spec
@@ -16,6 +17,9 @@ CONSTANTS Rows <- RowsV
  Cases <- CasesV
  Classes = {%s}
  Deep = %s
+ OKRows <- OKRowsV
+ TableOK = %s
+INVARIANT ClaimsRight
 INVARIANT EncodeStepwise
 INVARIANT DecodeStepwise
 INVARIANT Base58Invertible
@@ -224,8 +228,17 @@ def run(ctx):
     cases = make_cases(tbl, ctx.seed, k_random)
     rows_v = to_tla(tuple((tuple(hp), elen, tuple(bp), plen) for hp, elen, bp, plen, _ in tbl))
     cases_v = '<<' + ',\n  '.join(to_tla(c[0]) for c in cases) + '>>'
-    gen = {'Base58MC': MC % (rows_v, cases_v)}
-    r = ctx.tlc('Base58MC', CFG % (', '.join('"%s"' % c for c in classes), 'FALSE' if ctx.quick else 'TRUE'), gen=gen, timeout=1500)
+    # claims about the table, computed with the independent encoder and verified by TLC (invariant ClaimsRight)
+    def claim_ok(row):
+        hp, elen, bp, plen, _ = row
+        lo, hi = b58ref.b58(bp + bytes(plen + 4)), b58ref.b58(bp + b'\xff' * (plen + 4))
+        return len(lo) == elen == len(hi) and lo.startswith(hp.decode('latin-1')) and hi.startswith(hp.decode('latin-1')) and any(bp)
+    ok_rows = {i + 1 for i, row in enumerate(tbl) if claim_ok(row)}
+    table_ok = not any(i < j and ((a[1] == b[1] and (a[0].startswith(b[0]) or b[0].startswith(a[0]))) or (a[0] == b[0] and a[3] == b[3]))
+                       for i, a in enumerate(tbl) for j, b in enumerate(tbl))
+    gen = {'Base58MC': MC % (rows_v, cases_v, to_tla(ok_rows))}
+    cfg = CFG % (', '.join('"%s"' % c for c in classes), 'FALSE' if ctx.quick else 'TRUE', 'TRUE' if table_ok else 'FALSE')
+    r = ctx.tlc('Base58MC', cfg, gen=gen, timeout=1500)
     ctx.require_no_violation(r, 'Base58')
     ctx.require_coverage(r, ['EncLookup', 'EncDiv', 'EncToDec', 'DecStart', 'DecLookup', 'DecMul', 'DecCheck'])
     outs = [v for v in r.printed if v[0] == 'OUT']
@@ -234,6 +247,8 @@ def run(ctx):
         raise MachineryError('expected one table record from TLC, got %d' % len(tables))
     _, _, facts, overlaps, encdups, badchars = tables[0]
     row_ok = []
+    if {i + 1 for i, row in enumerate(tbl) if tuple(facts[i]) == (row[1], row[1], True, True, True)} != ok_rows or table_ok != (not overlaps and not encdups):
+        raise MachineryError('the table facts computed by TLC differ from the independent encoder\'s claims')
     for i, row in enumerate(tbl):
         hp, elen, bp, plen, doc = row
         f = tuple(facts[i])
